@@ -2,6 +2,7 @@ open Model
 open Common
 
 (* mid|uri                                -> module id
+   emit|name;name;...|def;def;...         -> the hoisted names in the order of their lines, ;-separated
    reg|uri;uri;...|query uri              -> index (1-based, in construction order) of the template whose source answers, or - *)
 let handle line =
   match fields line with
@@ -10,6 +11,9 @@ let handle line =
     let uris = List.filter (fun t -> String.trim t <> "") (String.split_on_char ';' us) in
     let l = List.mapi (fun i u -> (str_of_field u, n_of_int (i + 1))) uris in
     (match answers (register_all [] l) (str_of_field q) with Some t -> string_of_int (int_of_n t) | None -> "-")
+  | ["emit"; ns; ds] ->
+    let items t = List.map str_of_field (List.filter (fun x -> String.trim x <> "") (String.split_on_char ';' t)) in
+    String.concat ";" (List.map field_of_str (emitted (items ns) (items ds)))
   | _ -> "!badrequest"
 
 let () = iter_lines handle
